@@ -10,7 +10,8 @@ from . import mc, tlc
 from .common import allclose, fr, tla
 
 DEVIATION = "JFA_FN_Y_MINUS_DZ"
-INVARIANTS = ["PrecisionPositive", "BlockIsArgmax", "AffineInvariant"]
+INVARIANTS = ["PrecisionPositive", "BlockIsArgmax", "EnrollIsBlockwise"]
+PROPERTIES = ["AffineInvariant"]
 
 # value sets of the exact model (small integers and simple fractions)
 M_VALS = [F(-1), F(0), F(2)]
@@ -24,8 +25,8 @@ LAT_VALS = [F(-1), F(-1, 2), F(0), F(1, 2), F(1), F(2)]
 AFFS = [(F(2), F(1)), (F(-1), F(3)), (F(1, 2), F(-1))]
 
 
-def config(jfa, m, s, U, V, D, N, Fs):
-    return {"jfa": bool(jfa), "m": list(m), "s": list(s), "U": list(U), "V": list(V), "D": list(D),
+def config(jfa, m, s, U, V, D, N, Fs, enroll=False):
+    return {"jfa": bool(jfa), "enroll": bool(enroll), "m": list(m), "s": list(s), "U": list(U), "V": list(V), "D": list(D),
             "N": [list(r) for r in N], "F": [list(r) for r in Fs]}
 
 
